@@ -497,7 +497,21 @@ def native_replay(h, g, tape, release=False, miri=False):
         cmd += ["--release"]
     cmd += ["--target-dir", native_target(g, release) + ("_miri" if miri else ""),
             "--", "verif_replay", "--nocapture", "--test-threads", "1"]
-    out, rc, to, dt = run_proc(cmd, group_cwd(g), 1800, 24, env=env)
+    pkg = g.package if g.kind == "incrate" else g.key
+    infile = os.path.join(BUILD, "replay_%s.in" % pkg)
+    open(infile, "w").write(h.replay + "\n" + tape.hex() + "\n")
+    try:
+        out, rc, to, dt = run_proc(cmd, group_cwd(g), 1800, 24, env=env)
+    finally:
+        try:
+            os.remove(infile)
+        except OSError:
+            pass
+    try:
+        os.makedirs(os.path.join(BUILD, "logs", "replay"), exist_ok=True)
+        open(os.path.join(BUILD, "logs", "replay", h.name.replace("/", "__") + ("_miri" if miri else "_rel" if release else "_dev") + ".log"), "w").write(" ".join(cmd) + "\nTAPE " + tape.hex() + "\n" + out)
+    except OSError:
+        pass
     began = "REPLAY-BEGIN" in out
     returned = "REPLAY-RETURNED" in out
     assume_failed = "REPLAY-ASSUME-FAILED" in out
@@ -649,7 +663,8 @@ def check_property(pid, prop, groups, tier, seed, jobs, update_hints=False, only
         # all failed checks covered by known findings?  still replay once to stay honest.
         say(f"[{pid}] {h.name}: {len(r.failed)} failed check(s); extracting counterexamples")
         cmd = kani_cmd(h, g, to_mangled(r.bounds, r.inv), r.glob, playback=True, cap=h.cap * 4 + 300)
-        out, rc, to, dt = run_proc(cmd, group_cwd(g), h.cap * 4 + 900, h.mem)
+        # trace generation: kani-driver parses CBMC's JSON trace in memory
+        out, rc, to, dt = run_proc(cmd, group_cwd(g), h.cap * 4 + 900, max(h.mem, 40))
         r.queries += 1
         open(os.path.join(logdir, h.name.replace("/", "__") + ".playback.log"), "w").write(out)
         tapes = extract_tapes(out)
